@@ -5,6 +5,7 @@ package main
 // attribution of a difference to the component type that owns the mis-decoded field.
 
 import (
+	"bufio"
 	"bytes"
 	"encoding/json"
 	"fmt"
@@ -167,7 +168,13 @@ func (x *lc) equalObjects(a, b any) (bool, string) {
 // the reference bytes, announces the same size, and (where a count is returned) consumed exactly the encoding.
 func (x *lc) judge(d decoder, recv any, n int64) verdict {
 	ref, _ := x.o.ref(d)
-	return judgeAgainst(x.e, x.o.obj, ref, d, recv, n)
+	v := judgeAgainst(x.e, x.o.obj, ref, d, recv, n)
+	if v.kind == "binarysize-differs" && d.method != "ReadFrom" && x.o.binOK && x.o.wbinOK && !bytes.Equal(x.o.bin, x.o.wbin) {
+		// BinarySize documents WriteTo; where MarshalBinary and WriteTo of this very object disagree (reported by
+		// family 1) it cannot also match MarshalBinary's length
+		return verdict{}
+	}
+	return v
 }
 
 func judgeAgainst(e *entry, orig any, ref []byte, d decoder, recv any, n int64) verdict {
@@ -246,6 +253,10 @@ func (x *lc) subjectFor(d decoder, v verdict) string {
 	if v.subject != "" {
 		return v.subject
 	}
+	if strings.HasPrefix(v.kind, "differs:") {
+		// a mis-decoded / stale field of the type itself: the decoders share the code, one signature
+		return baseName(reflect.TypeOf(x.o.obj).Elem())
+	}
 	return x.e.name + "." + d.method
 }
 
@@ -296,7 +307,13 @@ func encodeFor(d decoder, a api) (b []byte, o outcome, ok bool) {
 		return encodeJSON(a)
 	case d.method == "ReadFrom" && a.wt != nil:
 		var buf bytes.Buffer
-		o = guard(func() (err error) { _, err = a.wt.WriteTo(&buf); return })
+		bw := bufio.NewWriterSize(&buf, 4096)
+		o = guard(func() (err error) {
+			if _, err = a.wt.WriteTo(bw); err != nil {
+				return
+			}
+			return bw.Flush()
+		})
 		return buf.Bytes(), o, o.err == nil && o.panicked == nil
 	}
 	return encodeBinary(a)
